@@ -7,7 +7,7 @@
 From Coq Require Import String.
 From Coq Require Import List Arith ZArith.
 Import ListNotations.
-From YP Require Import Base.Str Term.Term Term.Show Engine.Db Engine.DbCursor Engine.DbCursorThms Engine.DbRetractOrder Engine.DbFacts Engine.DbProg Engine.DbProgThms Engine.RunDbProg Engine.DbProgInv Engine.DbProgSim.
+From YP Require Import Base.Str Term.Term Term.Show Engine.Db Engine.DbCursor Engine.DbCursorThms Engine.DbRetractOrder Engine.DbFacts Engine.DbProg Engine.DbProgThms Engine.RunDbProg Engine.DbProgInv Engine.DbProgSim Engine.DbProgCut.
 
 (* "A goal that enumerates the dynamic facts of a predicate works on the facts as they were when the
    goal started: additions and removals made while the enumeration is suspended do not change which
@@ -164,6 +164,37 @@ Example C14_compiled_control_programs :
   = OL [OL [otag "answers" [OL [OL []; OL []]]];
         OL [OL [OL [term_obs (TInt 1)]]; OL [OL [term_obs (TInt 1)]; OL [term_obs (TInt 2)]]]; onat 3].
 Proof. repeat split; vm_compute; reflexivity. Qed.
+
+(* The scope of a cut in the model (Engine/DbProgCut.v).  A run of DbProg.solve ends with a flag: None = exhausted, Some j =
+   frame j is being left.  For every program whose clause bodies are source bodies (src_prog: no internal markers), every
+   fuel and state: a call with nothing behind it - a query - ends with None: whatever cuts the clauses of the called
+   predicate (and of the predicates they call, to any depth) execute, nothing is propagated to the caller; and a source
+   body ends with None or with Some 0 (its own clause is cut).  So the loop  t :- retract(c(N)), !, ... assertz(c(N1)).
+   leaves its retract goal after the first answer and returns normally to whoever called t.  (General form:
+   DbProgCut.solve_may - the flag of a run is one that the goals still to run allow, calls passing on only what the
+   REST of the body says.) *)
+Theorem C14_compiled_cut_not_propagated : forall uf prog, src_prog prog -> forall n name args s g g' a tr fl,
+  solve uf prog n [GCall name args] s g = Some (g', a, tr, fl) -> fl = None.
+Proof. exact call_ends_normally. Qed.
+Print Assumptions C14_compiled_cut_not_propagated.
+
+Theorem C14_compiled_cut_ends_own_clause_only : forall uf prog, src_prog prog -> forall n gs s g g' a tr fl,
+  forallb src gs = true -> solve uf prog n gs s g = Some (g', a, tr, fl) -> fl = None \/ fl = Some 0.
+Proof. exact source_body_flag. Qed.
+Print Assumptions C14_compiled_cut_ends_own_clause_only.
+
+(* non-vacuity: the counter program is a source program, and the body  c(X), t, !  really ends with Some 0 *)
+Example C14_compiled_cut_nonvacuous :
+  let c x := TFun (d "c") [x] in
+  let prog := [mkcl (d "t") 2 [] [GRetract (c (TVar 0)); GCut; GUnify (TVar 1) (TFun (d "s") [TVar 0]); GAssert false (c (TVar 1))]] in
+  src_prog prog /\
+  exists g' a tr, solve 50 prog 100 [GAssert false (c (TInt 0)); GCall (d "c") [TVar 0]; GCall (d "t") []; GCut] [] (ginit 1 1000)
+                  = Some (g', a, tr, Some 0) /\ length a = 1.
+Proof.
+  cbv zeta. split.
+  - intros cl [<-|[]]. reflexivity.
+  - eexists. eexists. eexists. split; [vm_compute; reflexivity|reflexivity].
+Qed.
 
 (* ---- TRACE INCLUSION: every run of compiled code IS a history of the cursor machine ----
    (Engine/DbProgSim.v)  For every program whose clauses mention only their own variables (prog_ok), every body,
